@@ -21,6 +21,7 @@ let exec_ref (line : string) : string =
   let (s, d, values, w, _) = parse_case line in
   let cls = match td_build s d with
     | Some rd when known_covariant s rd -> "covariant_field_type"
+    | Some rd when known_nested_var rd -> "nested_variable_in_scalar_literal"
     | _ -> "-" in
   (match ref_execute s d values w with
    | EoResponse r -> "ok " ^ Lib_xrun.p_response r
